@@ -66,7 +66,7 @@ def run_gate(prop, tier, seed, work):
     res.cov["routes_in_source"] = len(rts)
     res.cov["routes_not_in_policy_table_probed_default_deny"] = other
     res.cov["with_effect"] = sum(1 for e in evs if e["out"]["effects"])
-    res.cov["rule"] = ("probes = operation (23 operations over 18 route families) x 35 credential shapes x target x method x "
+    res.cov["rule"] = ("probes = operation (23 operations over 18 route families) x 35 credential shapes x target (self, other, other administrator, same name in another case) x method x "
                        "origin x web-UI level, TLC-enumerated, plus default-deny probes of every other route extracted from "
                        "main(); effects are OBSERVED (database digest, transaction maps, signed material verifying under "
                        "the server keys, canary token names); non-trivial = carries a credential")
